@@ -105,3 +105,42 @@ PROPS["C03"] = dict(
     assumptions=["process crash: what reached the files stays, in order; power-loss reordering is out of the property's scope",
                  "rename, unlink, truncate and a pwrite of 4 bytes are atomic with respect to a process crash"],
 )
+
+PROPS["C05"] = dict(
+    modules=["Sth.Props.C08"],
+    theorems=list(CORE_RL),
+    runs=[dict(engine="sched", quick=150, thorough=20000, extra=["-profile", "c05"], nontrivial=["overlapping-calls"])],
+    shrink_budget=0,
+    rule="2-3 threads of 1-3 Put/Get/Has/GetSize/Remove calls on 2-4 keys clustered in one or two buckets with shared prefixes, plus a "
+         "Flush thread, run on the real store under a cooperative scheduler that parks every thread at named points between the lock "
+         "sections of Put/Remove/Get/Index.Get/Flush and releases one at a time following a seeded schedule with runs of 1-6 steps; the "
+         "history (invocation/response event indexes and results) is checked: no call returns an error, the history is linearizable "
+         "with respect to the map (exhaustive search), and the contents after quiescence equal the final state of some linearization. "
+         "Non-trivial = distinct schedule in which calls of different threads overlap.",
+    assumptions=["interleavings at the granularity of the named points (lock-section boundaries); atomicity of the sections themselves is C16",
+                 "blocking is detected with a 30 ms grace period; a thread that arrives later is observed asynchronously"],
+)
+
+PROPS["C06"] = dict(
+    modules=["Sth.Props.C08"],
+    theorems=list(CORE_RL),
+    runs=[dict(engine="sched", quick=150, thorough=20000, extra=["-profile", "c06"], nontrivial=["gc-overlaps-call"])],
+    shrink_budget=0,
+    rule="as C05 with an extra thread running primary GC (low-use 0/50/85) and index GC cycles over a store prepared with superseded "
+         "records in several files; collector sub-steps (busy check, mark, merge, truncate, header, unlink, hand-over, relocation) are "
+         "scheduling points. Non-trivial = distinct schedule in which a collector's mutation lies inside a foreground call's interval.",
+    assumptions=["as C05"],
+)
+
+PROPS["C12"] = dict(
+    modules=["Sth.Props.C08"],
+    theorems=list(CORE_RL),
+    runs=[dict(engine="sched", quick=200, thorough=20000, extra=["-profile", "c12"], nontrivial=["writer-waited"])],
+    shrink_budget=0,
+    rule="1-2 writer threads (Put/Remove) on a Started store with burst rate 0 and a tiny measured flush rate (verif setter), so that "
+         "flushTick takes the waiting path deterministically, plus an explicit Flush caller playing the periodic flush; scheduling points "
+         "inside flushTick (measured, decided, registered, waiting, released) and Flush (stamped, nowork/checked, committed, notified); "
+         "the store's own flusher goroutine runs freely and its points are logged. Violation = a writer still parked on the notice "
+         "after a flush completed after its wait began. Non-trivial = distinct schedule in which a writer entered the waiting path.",
+    assumptions=["weak fairness of the flusher goroutine (it runs when signalled)", "flushes succeed"],
+)
